@@ -12,6 +12,41 @@ use rbx_dom_weak::types::{Ref, UniqueId, Variant};
 use rbx_dom_weak::{InstanceBuilder, WeakDom};
 use serde_json::{json, Value};
 
+/// Watchdog for calls into the code under test that never return (a defect can make a DOM call loop): the
+/// driver notes the call it is about to make; if that call is still running after 20 s the watchdog appends
+/// a `hang` event for it to the log (raw write: the main thread holds the stdout lock) and ends the process.
+static WATCH: std::sync::Mutex<Option<(std::time::Instant, String)>> = std::sync::Mutex::new(None);
+
+fn start_watchdog() {
+    static STARTED: std::sync::Once = std::sync::Once::new();
+    STARTED.call_once(|| {
+        std::thread::spawn(|| loop {
+            std::thread::sleep(std::time::Duration::from_millis(500));
+            let due = match &*WATCH.lock().unwrap() {
+                Some((t, line)) if t.elapsed() > std::time::Duration::from_secs(20) => Some(line.clone()),
+                _ => None,
+            };
+            if let Some(line) = due {
+                use std::os::fd::FromRawFd;
+                let mut f = unsafe { std::fs::File::from_raw_fd(1) };
+                let _ = f.write_all(line.as_bytes());
+                let _ = f.write_all(b"\n");
+                let _ = f.flush();
+                std::process::exit(0);
+            }
+        });
+    });
+}
+
+fn watch(out: &mut dyn Write, ep: &str, op: &Value) {
+    let _ = out.flush();
+    *WATCH.lock().unwrap() = Some((std::time::Instant::now(), json!({"op": "hang", "ep": ep, "during": op}).to_string()));
+}
+
+fn unwatch() {
+    *WATCH.lock().unwrap() = None;
+}
+
 pub const NUM_DOMS: usize = 2;
 const CLASSES: [&str; 3] = ["Folder", "Part", "Model"];
 
@@ -546,7 +581,10 @@ pub fn run(max_ref: usize, num_slots: usize, input: &mut dyn BufRead, out: &mut 
         let mut w = World::new(max_ref, num_slots);
         emit(out, &ep, json!({"op": "reset"}));
         for op in episode["ops"].as_array().unwrap() {
+            start_watchdog();
+            watch(out, &ep, op);
             let evs = w.exec(op);
+            unwatch();
             let panicked = evs[0]["outcome"] == "panic";
             for ev in evs {
                 emit(out, &ep, ev);
@@ -641,7 +679,10 @@ fn random_steps(w: &mut World, rng: &mut StdRng, steps: usize, uid_pool: i64, la
             } else {
                 continue;
             };
+            start_watchdog();
+            watch(out, ep, &op);
             let evs = w.exec(&op);
+            unwatch();
             let panicked = evs[0]["outcome"] == "panic";
             for ev in evs {
                 emit(out, ep, ev);
